@@ -21,6 +21,7 @@ import (
 	"sync/atomic"
 	"time"
 
+	iscperrors "github.com/aptpod/iscp-go/errors"
 	"github.com/aptpod/iscp-go/iscp"
 	"github.com/aptpod/iscp-go/message"
 	"github.com/aptpod/iscp-go/transport"
@@ -36,13 +37,18 @@ import (
 const wd = 4 * time.Second
 
 type stepIn struct {
-	Op   string `json:"op"` // write flush ack cut detect resume close
+	Op   string `json:"op"` // write flush ack cut detect resume close openrefused
 	S    int    `json:"s"`  // stream index
 	ID   int    `json:"id,omitempty"`
 	Lens []int  `json:"lens,omitempty"`
 }
 type caseIn struct {
 	Reliable []bool   `json:"reliable"` // per stream
+	// per stream, what happens to its resume request on the new connection: "" / "ok" = answered with
+	// success; "refused" = answered with a failure code and a zero alias (the stream closes itself);
+	// "closepending" = left unanswered while the application closes the stream (its close request
+	// travels on the new connection, where the stream has no alias entry)
+	Resume []string `json:"resume,omitempty"`
 	Steps    []stepIn `json:"steps"`
 }
 
@@ -120,7 +126,7 @@ func runScenario(c *caseIn, seed uint64, only int) (obs []string, direct, discar
 	byID := map[uuid.UUID]*streamEnv{}
 	byAlias := map[uint32]*streamEnv{}
 	for i := range st {
-		st[i] = &streamEnv{id: uuid.New(), alias: uint32(i + 1), outst: map[uint32]bool{}}
+		st[i] = &streamEnv{id: uuid.New(), alias: uint32(i), outst: map[uint32]bool{}}
 		byID[st[i].id] = st[i]
 		byAlias[st[i].alias] = st[i]
 	}
@@ -144,6 +150,11 @@ func runScenario(c *caseIn, seed uint64, only int) (obs []string, direct, discar
 			mu.Unlock()
 			broker.AcceptConnect(s, v)
 		case *message.UpstreamOpenRequest:
+			if v.SessionID == "ghost-refused" {
+				// a refused open: failure code, zero stream id, zero alias
+				s.Send(&message.UpstreamOpenResponse{RequestID: v.RequestID, ResultCode: message.ResultCodeSessionAlreadyClosed, ResultString: "refused"})
+				return
+			}
 			mu.Lock()
 			e := st[openOrder[nextOpen]]
 			nextOpen++
@@ -386,6 +397,22 @@ func runScenario(c *caseIn, seed uint64, only int) (obs []string, direct, discar
 				return nil, fmt.Sprintf("ack %v for stream %d (alias %d) was not processed: chunks still stored", seqs, op.S, e.alias), ""
 			}
 			e.outst = map[uint32]bool{}
+		case "openrefused":
+			if !linkUp || only >= 0 {
+				continue // belongs to no stream: absent from every solo run
+			}
+			_, blocked := call(func() error {
+				ctx, cancel := context.WithTimeout(context.Background(), wd)
+				defer cancel()
+				_, err := conn.OpenUpstream(ctx, "ghost-refused", iscp.WithUpstreamFlushPolicyNone(), iscp.WithUpstreamQoS(message.QoSReliable))
+				if err == nil {
+					return errors.New("harness: a refused open returned a stream")
+				}
+				return nil
+			})
+			if blocked {
+				return nil, "OpenUpstream (refused by the broker) did not return within the watchdog", ""
+			}
 		case "cut":
 			sess := b.Current()
 			p0 := sess.Pings.Load()
@@ -445,21 +472,40 @@ func runScenario(c *caseIn, seed uint64, only int) (obs []string, direct, discar
 					return nil, fmt.Sprintf("only %d of %d streams sent a resume request after the redial (F9 or stuck)", len(rqs), want), ""
 				}
 			}
-			sort.SliceStable(rqs, func(i, j int) bool {
-				ei, ej := byID[rqs[i].m.StreamID], byID[rqs[j].m.StreamID]
-				if ei == nil || ej == nil {
-					return false
-				}
-				idxOf := func(e *streamEnv) int {
-					for k := range st {
-						if st[k] == e {
-							return k
-						}
+			idxOf := func(e *streamEnv) int {
+				for k := range st {
+					if st[k] == e {
+						return k
 					}
+				}
+				return 0
+			}
+			outcomeOf := func(k int) string {
+				if k < len(c.Resume) && c.Resume[k] != "" {
+					return c.Resume[k]
+				}
+				return "ok"
+			}
+			// answered in this order: successful unreliable, successful reliable (so that the neighbours are
+			// registered on the new connection), then the refused ones, then the ones closed while pending
+			rank := func(rq rqT) int {
+				e := byID[rq.m.StreamID]
+				if e == nil {
 					return 0
 				}
-				return !c.Reliable[idxOf(ei)] && c.Reliable[idxOf(ej)]
-			})
+				k := idxOf(e)
+				switch outcomeOf(k) {
+				case "refused":
+					return 2
+				case "closepending":
+					return 3
+				}
+				if c.Reliable[k] {
+					return 1
+				}
+				return 0
+			}
+			sort.SliceStable(rqs, func(i, j int) bool { return rank(rqs[i]) < rank(rqs[j]) })
 			for _, rq := range rqs {
 				e := byID[rq.m.StreamID]
 				if e == nil {
@@ -471,9 +517,39 @@ func runScenario(c *caseIn, seed uint64, only int) (obs []string, direct, discar
 						idx = i
 					}
 				}
+				switch outcomeOf(idx) {
+				case "refused":
+					rq.s.Send(&message.UpstreamResumeResponse{RequestID: rq.m.RequestID, ResultCode: message.ResultCodeStreamNotFound, ResultString: "gone"})
+					// the stream closes itself: its close request (answered by the broker) and then the stream-closed error
+					if !broker.WaitFor(wd, func() bool {
+						ctx, cancel := context.WithTimeout(context.Background(), time.Millisecond)
+						defer cancel()
+						return errors.Is(e.up.Flush(ctx), iscperrors.ErrStreamClosed)
+					}) {
+						return nil, fmt.Sprintf("stream %d: a refused resume did not close the stream within the watchdog", idx), ""
+					}
+					time.Sleep(2 * time.Millisecond)
+					continue
+				case "closepending":
+					// the resume request stays unanswered; the application closes the stream meanwhile
+					err, blocked := call(func() error {
+						ctx, cancel := context.WithTimeout(context.Background(), wd)
+						defer cancel()
+						return e.up.Close(ctx)
+					})
+					if blocked {
+						return nil, fmt.Sprintf("Close of stream %d (resume pending) did not return within the watchdog", idx), ""
+					}
+					e.closed = true
+					e.rets = append(e.rets, retOf(err))
+					time.Sleep(2 * time.Millisecond)
+					continue
+				}
 				mu.Lock()
 				delete(byAlias, e.alias)
-				e.alias += 10
+				if idx != 0 {
+					e.alias += 10 // the first stream is given stream alias 0 again on the new connection
+				}
 				byAlias[e.alias] = e
 				stored := listStored(e)
 				if c.Reliable[idx] {
@@ -574,6 +650,114 @@ func runScenario(c *caseIn, seed uint64, only int) (obs []string, direct, discar
 	return obs, "", ""
 }
 
+// lifecycle: the case contains a refused open, a refused resume or a close while a resume is pending
+func lifecycle(c *caseIn) bool {
+	for _, x := range c.Resume {
+		if x != "" && x != "ok" {
+			return true
+		}
+	}
+	for _, st := range c.Steps {
+		if st.Op == "openrefused" {
+			return true
+		}
+	}
+	return false
+}
+
+// runDeadDownstream: a downstream whose open was REFUSED leaves its subscriptions in the wire
+// connection's routing tables with nobody draining them.  The broker then sends more chunks to that
+// alias than its channel holds (1024 + the 8-slot feeder), followed by one chunk for a live
+// neighbour downstream and an ack for a live upstream: both must still arrive - traffic addressed
+// to one alias must not stall the others.
+func runDeadDownstream(flood int) (direct string) {
+	var mu sync.Mutex
+	var dnAliases []uint32
+	dnID := uuid.New()
+	upID := uuid.New()
+	var acked atomic.Int32
+	b := broker.New(func(s *broker.Session, m message.Message) {
+		switch v := m.(type) {
+		case *message.ConnectRequest:
+			broker.AcceptConnect(s, v)
+		case *message.DownstreamOpenRequest:
+			mu.Lock()
+			n := len(dnAliases)
+			dnAliases = append(dnAliases, v.DesiredStreamIDAlias)
+			mu.Unlock()
+			if n == 0 {
+				s.Send(&message.DownstreamOpenResponse{RequestID: v.RequestID, ResultCode: message.ResultCodeSessionAlreadyClosed, ResultString: "refused"})
+			} else {
+				s.Send(&message.DownstreamOpenResponse{RequestID: v.RequestID, AssignedStreamID: dnID, ResultCode: message.ResultCodeSucceeded, ServerTime: time.Unix(1700000000, 0)})
+			}
+		case *message.UpstreamOpenRequest:
+			s.Send(&message.UpstreamOpenResponse{RequestID: v.RequestID, AssignedStreamID: upID, AssignedStreamIDAlias: 0, ResultCode: message.ResultCodeSucceeded})
+		case *message.UpstreamChunk:
+			// acknowledged later, behind the flood
+		case *message.UpstreamCloseRequest:
+			s.Send(&message.UpstreamCloseResponse{RequestID: v.RequestID, ResultCode: message.ResultCodeSucceeded})
+		case *message.DownstreamCloseRequest:
+			s.Send(&message.DownstreamCloseResponse{RequestID: v.RequestID, ResultCode: message.ResultCodeSucceeded})
+		}
+	})
+	defer b.Release()
+	conn, err := iscp.Connect(b.Address, broker.TransportName, iscp.WithConnPingInterval(time.Hour), iscp.WithConnPingTimeout(time.Hour))
+	if err != nil {
+		return "harness: connect failed: " + err.Error()
+	}
+	defer func() {
+		ctx, cancel := context.WithTimeout(context.Background(), time.Second)
+		go func() { defer cancel(); conn.Close(ctx) }()
+	}()
+	ctx, cancel := context.WithTimeout(context.Background(), 3*wd)
+	defer cancel()
+	filters := []*message.DownstreamFilter{message.NewDownstreamFilterAllFor("src")}
+	if _, err := conn.OpenDownstream(ctx, filters, iscp.WithDownstreamQoS(message.QoSReliable)); err == nil {
+		return "harness: the refused OpenDownstream returned a stream"
+	}
+	d2, err := conn.OpenDownstream(ctx, filters, iscp.WithDownstreamQoS(message.QoSReliable))
+	if err != nil {
+		return "harness: second OpenDownstream failed: " + err.Error()
+	}
+	up, err := conn.OpenUpstream(ctx, "s", iscp.WithUpstreamFlushPolicyNone(), iscp.WithUpstreamQoS(message.QoSReliable),
+		iscp.WithUpstreamReceiveAckHooker(iscp.ReceiveAckHookerFunc(func(uuid.UUID, iscp.UpstreamChunkResult) { acked.Add(1) })))
+	if err != nil {
+		return "harness: OpenUpstream failed: " + err.Error()
+	}
+	if err := up.WriteDataPoints(ctx, &message.DataID{Name: "n1", Type: "t"}, &message.DataPoint{ElapsedTime: 1, Payload: []byte{1}}); err != nil {
+		return "harness: write failed: " + err.Error()
+	}
+	if err := up.Flush(ctx); err != nil {
+		return "harness: flush failed: " + err.Error()
+	}
+	mu.Lock()
+	dead, live := dnAliases[0], dnAliases[1]
+	mu.Unlock()
+	info := &message.UpstreamInfo{SessionID: "s", SourceNodeID: "src", StreamID: uuid.New()}
+	mk := func(alias uint32, seq uint32) *message.DownstreamChunk {
+		return &message.DownstreamChunk{StreamIDAlias: alias, UpstreamOrAlias: info, StreamChunk: &message.StreamChunk{SequenceNumber: seq,
+			DataPointGroups: []*message.DataPointGroup{{DataIDOrAlias: &message.DataID{Name: "d", Type: "t"}, DataPoints: []*message.DataPoint{{ElapsedTime: time.Duration(seq), Payload: []byte{byte(seq)}}}}}}}
+	}
+	sess := b.Current()
+	for i := 1; i <= flood; i++ {
+		if err := sess.Send(mk(dead, uint32(i))); err != nil {
+			return "harness: broker send failed: " + err.Error()
+		}
+	}
+	sess.Send(mk(live, 1))
+	sess.Send(&message.UpstreamChunkAck{StreamIDAlias: 0, Results: []*message.UpstreamChunkResult{{SequenceNumber: 1, ResultCode: message.ResultCodeSucceeded}}})
+	rctx, rcancel := context.WithTimeout(context.Background(), wd)
+	defer rcancel()
+	ck, err := d2.ReadDataPoints(rctx)
+	if err != nil || ck == nil || ck.SequenceNumber != 1 {
+		return fmt.Sprintf("a live downstream did not receive its chunk within the watchdog (%v) after %d chunks had been addressed to the alias of a neighbour whose open was refused and which nobody reads: traffic for one alias stalled another", err, flood)
+	}
+	if !broker.WaitFor(wd, func() bool { return acked.Load() >= 1 }) {
+		return fmt.Sprintf("a live upstream did not receive its ack within the watchdog after %d chunks had been addressed to the alias of a dead downstream", flood)
+	}
+	return ""
+}
+
 func genCase(r *rng.R) *caseIn {
 	n := 2 + r.Intn(2)
 	c := &caseIn{}
@@ -597,6 +781,10 @@ func genCase(r *rng.R) *caseIn {
 		}
 	}
 	burst(2+r.Intn(4), true)
+	if r.Chance(1, 3) {
+		c.Steps = append(c.Steps, stepIn{Op: "openrefused"})
+		burst(1, true)
+	}
 	if r.Chance(1, 4) {
 		s := r.Intn(n)
 		c.Steps = append(c.Steps, stepIn{Op: "close", S: s})
@@ -607,6 +795,16 @@ func genCase(r *rng.R) *caseIn {
 			burst(1+r.Intn(2), false)
 		}
 		c.Steps = append(c.Steps, stepIn{Op: "detect"}, stepIn{Op: "resume"})
+		// the first stream (stream alias 0) always resumes; a neighbour may be refused or closed while pending
+		c.Resume = make([]string, n)
+		for i := 1; i < n; i++ {
+			switch k := r.Intn(12); {
+			case k < 3:
+				c.Resume[i] = "refused"
+			case k < 5:
+				c.Resume[i] = "closepending"
+			}
+		}
 	}
 	burst(1+r.Intn(3), true)
 	for s := 0; s < n; s++ {
@@ -660,6 +858,22 @@ func main() {
 			{Op: "write", S: 0, ID: 1, Lens: []int{3}}, {Op: "flush", S: 0}, {Op: "write", S: 1, ID: 2, Lens: []int{2}}, {Op: "flush", S: 1},
 			{Op: "cut"}, {Op: "write", S: 0, ID: 1, Lens: []int{4}}, {Op: "flush", S: 0}, {Op: "detect"}, {Op: "resume"},
 			{Op: "write", S: 0, ID: 1, Lens: []int{1}}, {Op: "flush", S: 0}, {Op: "ack", S: 0}, {Op: "ack", S: 1}, {Op: "close", S: 0}, {Op: "close", S: 1}}}, "reliable+unreliable", r.U64()})
+		// lifecycle of one stream next to the stream that holds stream alias 0 (seeded C07-b, F42)
+		after0 := []stepIn{{Op: "write", S: 0, ID: 1, Lens: []int{2}}, {Op: "flush", S: 0}, {Op: "ack", S: 0}, {Op: "write", S: 0, ID: 2, Lens: []int{3}}, {Op: "flush", S: 0}, {Op: "ack", S: 0}, {Op: "close", S: 0}}
+		pre := []stepIn{{Op: "write", S: 0, ID: 1, Lens: []int{3}}, {Op: "flush", S: 0}, {Op: "write", S: 1, ID: 2, Lens: []int{2}}, {Op: "flush", S: 1}}
+		outage := []stepIn{{Op: "cut"}, {Op: "detect"}, {Op: "resume"}}
+		cat := func(xs ...[]stepIn) []stepIn {
+			var o []stepIn
+			for _, x := range xs {
+				o = append(o, x...)
+			}
+			return o
+		}
+		jobs = append(jobs,
+			job{&caseIn{Reliable: []bool{true, true}, Steps: cat(pre, []stepIn{{Op: "openrefused"}}, after0, []stepIn{{Op: "ack", S: 1}, {Op: "close", S: 1}})}, "refused-open-next-to-alias0", r.U64()},
+			job{&caseIn{Reliable: []bool{true, true}, Resume: []string{"ok", "refused"}, Steps: cat(pre, outage, after0)}, "refused-resume-next-to-alias0", r.U64()},
+			job{&caseIn{Reliable: []bool{true, true}, Resume: []string{"ok", "closepending"}, Steps: cat(pre, outage, after0)}, "close-while-resume-pending-next-to-alias0", r.U64()},
+			job{&caseIn{Reliable: []bool{true, false, true}, Resume: []string{"ok", "closepending", "refused"}, Steps: cat(pre, []stepIn{{Op: "write", S: 2, ID: 3, Lens: []int{1}}, {Op: "flush", S: 2}}, outage, after0)}, "close-while-resume-pending-next-to-alias0", r.U64()})
 		for i := 0; i < nrand; i++ {
 			jobs = append(jobs, job{genCase(r.Fork()), "random", r.U64()})
 		}
@@ -718,7 +932,7 @@ func main() {
 								outage = true
 							}
 						}
-						if hasU && outage && cs.Sig == "" {
+						if hasU && outage && !lifecycle(j.c) && cs.Sig == "" {
 							cs.Sig = "F3:unreliable-resume-clears-other-stream-store"
 						}
 					}
@@ -737,7 +951,7 @@ func main() {
 				for _, st := range j.c.Steps {
 					outage = outage || st.Op == "cut"
 				}
-				if hasU && hasR && outage && strings.Contains(cs.Direct, "stay stored") {
+				if hasU && hasR && outage && !lifecycle(j.c) && strings.Contains(cs.Direct, "stay stored") {
 					cs.Sig = "F3:unreliable-resume-clears-other-stream-store"
 				}
 			}
@@ -762,7 +976,18 @@ func main() {
 			w.Count("sig:" + cs.Sig)
 		}
 	}
-	rule := "2-3 upstreams (the first reliable, the others reliable or unreliable) on one connection: interleaved write+flush, per-stream acks, optional close of one stream, optional outage (loud cut, writes of any stream before it is noticed, all streams resume: unreliable ones answered first), more traffic, closes in random order; each stream's observables are compared with its solo run through the same history. non-trivial = every stream has a solo run to compare with; distinct = distinct Coq case terms"
+	if *replay == "" {
+		for _, flood := range []int{40, 1100} {
+			d := runDeadDownstream(flood)
+			if strings.HasPrefix(d, "harness:") {
+				fmt.Fprintln(os.Stderr, d)
+				os.Exit(3)
+			}
+			w.Add(coqfmt.Case{Term: "mkIsoCase []", Input: map[string]interface{}{"scenario": "dead-downstream-flood", "flood": flood},
+				Kind: "dead-downstream-flood", Direct: d, Nontrivial: true, Seed: uint64(flood)})
+		}
+	}
+	rule := "a downstream whose open was refused (its subscriptions stay registered, nobody reads) is flooded with 40 / 1100 chunks, then a live downstream must still get its chunk and a live upstream its ack; the broker gives the first stream STREAM ALIAS 0 (also after a resume); lifecycle operations of a neighbour happen on the same wire connection: an open refused with a zero alias in the response, a resume refused with a zero alias, an application Close while the neighbour's resume request is still unanswered (its close request travels on the new connection where it has no alias entry) - afterwards the alias-0 stream must still send chunks and receive acks. 2-3 upstreams (the first reliable, the others reliable or unreliable) on one connection: interleaved write+flush, per-stream acks, optional close of one stream, optional outage (loud cut, writes of any stream before it is noticed, all streams resume: unreliable ones answered first), more traffic, closes in random order; each stream's observables are compared with its solo run through the same history. non-trivial = every stream has a solo run to compare with; distinct = distinct Coq case terms"
 	if err := w.Flush(*seed, *tier, rule, false, nil); err != nil {
 		fmt.Fprintln(os.Stderr, err)
 		os.Exit(2)
